@@ -23,7 +23,7 @@ CHECKS = {
 }
 
 # properties built by per-property modules: claimed when listed here and design_notes/Cxx.json exists
-ENABLED = ["C01", "C02", "C03", "C04", "C05", "C06", "C07", "C09", "C10", "C11", "C13", "C14", "C15", "C16", "C17", "C18"]
+ENABLED = ["C%02d" % i for i in range(1, 21) if i != 8]
 for pid in ENABLED:
     f = os.path.join(ROOT, "design_notes", pid + ".json")
     if os.path.exists(f) and os.path.exists(os.path.join(ROOT, "harness", "props", pid.lower() + ".py")):
